@@ -292,3 +292,59 @@ var vTimeoutEvents = []int{evYieldFinal, evYieldProgress, evCalleeError, evCance
 
 func Harness_C13_Timeout_2() { vC02(2, true, vTimeoutEvents) }
 func Harness_C13_Timeout_3() { vC02(3, true, vTimeoutEvents) }
+
+// progressive call invocations: a call made of several CALL chunks with one
+// request id; after its final RESULT nothing more reaches the caller for that
+// request, whatever the callee or the caller do afterwards
+func Harness_C02_ProgressiveInvocationLifecycle() {
+	d := newDealer(vNopLog{}, false, true, false)
+	feat := map[string]bool{"call_canceling": true, "progressive_call_invocations": true, "progressive_call_results": true}
+	caller := vNewSess(21, nil, vFeat("caller", feat), 32)
+	callee := vNewSess(22, nil, vFeat("callee", feat), 32)
+	d.register(callee.s, &wamp.Register{Request: 1, Procedure: "p.q"})
+	vSyncDealer(d)
+	callee.vDrain()
+	nChunks := 1 + vChoice("more-chunks", 3) // 1..3 chunks, the last one without progress
+	var invReq wamp.ID
+	for i := 0; i < nChunks; i++ {
+		opts := wamp.Dict{}
+		if i < nChunks-1 {
+			opts["progress"] = true
+		}
+		d.call(caller.s, &wamp.Call{Request: 77, Procedure: "p.q", Options: opts, Arguments: wamp.List{i}})
+		vSyncDealer(d)
+		inv, n := vFindMsg[*wamp.Invocation](callee.vDrain())
+		vAssert("every-chunk-is-one-invocation", n == 1)
+		if n != 1 {
+			return
+		}
+		if i == 0 {
+			invReq = inv.Request
+		}
+		vAssert("chunks-reuse-the-invocation-id", inv.Request == invReq)
+		vAssert("chunk-payload", len(inv.Arguments) == 1 && inv.Arguments[0] == any(i))
+		vAssert("caller-silent-while-pending", len(caller.vDrain()) == 0)
+	}
+	// the callee answers finally
+	d.yield(callee.s, &wamp.Yield{Request: invReq, Arguments: wamp.List{"done"}})
+	vSyncDealer(d)
+	got := caller.vDrain()
+	res, n := vFindMsg[*wamp.Result](got)
+	vAssert("one-final-result", n == 1 && len(got) == 1 && res.Request == 77)
+	vSyncDealer(d)
+	vAssert("finished-call-leaves-no-state", len(d.calls) == 0 && len(d.invocations) == 0 && len(d.invocationByCall) == 0)
+	// whatever happens next, the caller hears nothing more about request 77
+	switch vChoice("afterwards", 4) {
+	case 0:
+		d.removeSession(callee.s)
+	case 1:
+		d.yield(callee.s, &wamp.Yield{Request: invReq, Arguments: wamp.List{"again"}})
+	case 2:
+		d.error(callee.s, &wamp.Error{Type: wamp.INVOCATION, Request: invReq, Error: "late.err", Details: wamp.Dict{}})
+	case 3:
+		d.cancel(caller.s, &wamp.Cancel{Request: 77, Options: wamp.Dict{"mode": "killnowait"}})
+	}
+	vSyncDealer(d)
+	vAssert("nothing-after-the-final-reply", len(caller.vDrain()) == 0)
+	vCover("progressive-invocation-lifecycle-done")
+}
